@@ -561,6 +561,10 @@ Definition sao_recover_faults (cx : Ctx) (creator provider : string) (fl : list 
                   if negb (f_penalty fm =? 0) then panic "fault penalty outside the modelled domain" else
                   let zero := "0.000000000000000000" in
                   let confirmers := str_split "|" (str_drop_chars ["+"%char; "-"%char] (f_confirms fo)) in
+                  (* SetFishingReward(ctx, "", ...): the prefix store refuses an empty key. The reporter's own mark is a
+                     bare "+", so the first confirmer name is always empty: on the real chain the transaction that would
+                     clear a fault panics (and is rejected) -- found by the correspondence check in the thorough tier *)
+                  if existsb (String.eqb "") (f_reporter fo :: confirmers) then panic "key is nil" else
                   modify (fun s => s <| fishing ::= (fun m => fold_left (fun m c => <[c := zero]> m) confirmers (<[f_reporter fo := zero]> m)) |>) ;;;
                   modify (fun s => s <| faults ::= delete (f_id fm) |> <| fault_idx ::= delete rawkey |>)
                 else set_fault rawkey fm
